@@ -31,6 +31,15 @@ def run(ctx):
     ctx.guarded("R14.2", "incremental", lambda: incremental_tolerated(ctx, "R14.2"))
     ctx.guarded("R14.2", "block", lambda: block(ctx, "R14.2"))
     ctx.guarded("R14.3", "rejections", lambda: rejections(ctx))
+    ctx.rule("R14.6", "the incremental parser skips nothing the one-shot parser would have to parse: the line parsers go on only by parsing (= C02 R02.11) and refuse only for the enumerated reasons (= C02 R02.10)")
+    from . import c02 as _c02
+    from .c06 import _Remap as _Remap14b
+    ctx.guarded("R14.6", "progress", lambda: _c02.progress(_Remap14b(ctx, "R14.6"), "R02.11"))
+    ctx.guarded("R14.6", "rejections", lambda: _c02.rejections(_Remap14b(ctx, "R14.6"), "R02.10"))
+    ctx.rule("R14.5", "what both parsers store for a header line is what Headers::parse_header_line stores: the Headers fields and the custom map are written only there (= C15 R15.2-R15.6, writers enumerated) -- a normalisation applied on one path only (when the connection hands the request over, say) makes the two results differ")
+    from . import c15 as _c15
+    from .c06 import _Remap as _Remap14
+    ctx.guarded("R14.5", "header-line", lambda: _c15.line(_Remap14(ctx, "R14.5")))
     ctx.rule("R14.4", "the incremental parser's body is the same Content-Length bytes the one-shot parser slices: body accumulation and carry-over cursor rules (C01 R01.2/R01.5)")
     from .c06 import _Remap
     from . import c01
